@@ -28,5 +28,8 @@ known("C20","C20/not-reflexive/OPT","OPT.isDuplicate is hard-wired to false: an 
 known("C20","C20/not-reflexive/XPRIV","PrivateRR.isDuplicate is hard-wired to false: a user-registered private record is never a duplicate of itself or of its copy")
 fixed("C20","C20/is-true-want-false/AMTRELAY/field","5591374","AMTRELAY records with the discovery bit set and different relays were reported as duplicates (isDuplicate switched on the unmasked type octet)")
 
+# ---- C15
+fixed("C15","C15/fault-hidden/rcode/axfr/plain","4093943","an incoming AXFR ignored an error RCODE in every envelope but the first and reported the transfer as complete and error-free")
+
 json.dump({"comment":"Committed list of genuine defects of the pinned miekg/dns tree. status=known suppresses exactly the listed key (printed as KNOWN-FINDING); status=fixed suppresses nothing. Never written at run time; regenerate with tools/mkfindings.py.","findings":F},open('/verif/known_findings.json','w'),indent=1)
 print(len(F),"findings")
